@@ -76,6 +76,8 @@ def main():
     p = os.path.join(ROOT, "DESIGN.md"); s = open(p).read()
     for key, fn in (("fixed", section_fixed), ("findings", section_findings), ("seeds", section_seeds), ("claims", section_claims)):
         s = re.sub(r"(<!-- BEGIN:%s -->).*?(<!-- END:%s -->)" % (key, key), lambda m: m.group(1) + "\n" + fn() + "\n" + m.group(2), s, flags=re.S)
+    k = json.load(open(os.path.join(ROOT, "known_findings.json")))
+    s = re.sub(r"\*\*\d+ genuine defects repaired\*\*", "**%d genuine defects repaired**" % len(k["fixed"]), s)
     open(p, "w").write(s)
 
 if __name__ == "__main__":
